@@ -129,7 +129,7 @@ fn counting(ctx: &Ctx) {
     for &n in &[1usize, 2, 3, 5, 8, 32] {
         for &dim in &[1usize, 2, 16] {
             let big = n > 3 || dim > 2;
-            let (depth, alpha) = if ctx.tier.thorough() { if big { (2, &full) } else { (3, &full) } } else if big { (1, &full) } else { (2, &full) };
+            let (depth, alpha) = if ctx.tier.thorough() { if n * dim > 64 { (2, &full) } else { (3, &full) } } else if big { (1, &full) } else { (2, &full) };
             plans.push((n, dim, depth, alpha));
             if !ctx.tier.thorough() && !big {
                 plans.push((n, dim, 3, &small));
